@@ -41,7 +41,7 @@ def strategy_(g):
         conds=(cond,),
         noise=(nz, nz),
         pert=(0.3, 0.3),
-        features=("parallel", "reversed", "permute", "ids", "multifixed", "quat-signs"),
+        features=("parallel", "reversed", "permute", "ids", "multifixed", "quat-signs", "pure-translation-steps"),
     )
     case["tol"] = 10.0 ** g.rnd.uniform(-10, -3)
     return case
